@@ -9,6 +9,18 @@ NOTE = "Trusted: Lean kernel (axioms propext, Quot.sound, Classical.choice only)
 
 # property -> (design section, technique, level text, level note)
 CLAIMED = {
+    "C01": (
+        "§6 C01",
+        "Lean 4 theorems over a byte-stream model of hashlib objects in a heap (chunking irrelevance, read loop, block reassembly, every route feeds prefix++data, git blob header, construction errors, copy independence under any interleaving) + model/implementation correspondence over all entry points + hashlib/git oracle",
+        "Machine-checked Lean 4 theorems over an executable model of MultiHash in which a hashlib object is the byte stream fed to it and hashers live in a heap: any chunking (empty chunks included) feeds the concatenation and tracks its length; the from_file loop feeds exactly the non-empty reads before the first empty one; block reads of a positive (regenerated) block size reassemble the data; from_data with any set of known names feeds hasher n exactly prefix(n,len)++data where the git-flavoured prefix is git's blob header, so sha1_git hashes git's blob object; construction fails exactly for an unknown name or a git name without length; after copy(), for any interleaving of updates on original and copy, each continues from the common prefix with its own updates only. The harness hashes the model's streams with hashlib and compares with every route of the implementation (library, model and on-disk constructors, CLI) and with git hash-object.",
+        NOTE + " hashlib's concatenativity and copy() independence are the model's contract (trusted); digests are uninterpreted.",
+    ),
+    "C19": (
+        "§6 C19",
+        "Lean 4 proof of the repair algorithm as coded (totality via a pigeonhole fresh-name argument, uniqueness, preservation, winner, id of the original manifest, check passes) + model/implementation correspondence + direct property oracle",
+        "Machine-checked Lean 4 theorems over an executable model of Directory.from_possibly_duplicated_entries (stable sort of the original list, grouping in first-appearance order, rev>dir>file winner, replacement names made fresh by a counter loop whose termination is proved by pigeonhole): for every entry sequence the result has unique names, the flag is true iff a name repeats, every original entry is present with its type, target and permissions and at most a suffix added to its name, an entry of the most important kind keeps the name, the id is the hash of the original list's manifest kept verbatim as raw_manifest, that manifest differs from the repaired entries' manifest (so the integrity check passes), and without repeats the ordinary directory is returned unchanged. Differential check against the compiled model on every run.",
+        NOTE,
+    ),
     "C02": (
         "§6 C02",
         "Lean 4 theorems (permutation invariance via unique sorting, decoder round-trip, injectivity, git comparator equivalence) + model/implementation correspondence + git/dulwich oracle",
